@@ -496,6 +496,7 @@ fn a_c09() -> Vec<Op> {
     }
     a.push(Op::Reopen(0));
     a.push(Op::GetMany(0, 128));
+    a.push(Op::CloseHoldingIter);
     a
 }
 
